@@ -103,7 +103,7 @@ checks = {
     ref="3 C01"),
  "C20": dict(
     technique="explicit-state enumeration of all validation states x bounded clear sequences against a reference model (bounded exhaustive model checking of the real accessors)",
-    text="Every state of the validation keywords (absent/zero/non-zero per keyword, full product in the thorough tier) on every carrier kind is visited and every accessor / every sequence of clear operations up to length 2 (quick) or 4 (thorough) is executed on the real code and compared with a keyword->value reference model; the state space of this property is finite, so this is a complete decision within the stated value domains.",
+    text="Every state of the validation keywords (absent/zero/non-zero per keyword, full product in the thorough tier) on every carrier kind is visited and every accessor / every sequence of clear operations up to length 2 (quick) or 3 (thorough) is executed on the real code and compared with a keyword->value reference model; the state space of this property is finite, so this is a complete decision within the stated value domains.",
     note="Trusts reflect.DeepEqual and the harness' own reference model; value domain per keyword is {absent, 0, one non-zero value}; unchanged implementation is executed directly (no model of it).",
     ref="3 C20"),
 }
